@@ -256,6 +256,17 @@ def judge(case, impl, model):
             fails.append((key, f"{json.dumps(op)[:200]} on the {kind} copy: {st['out']} {json.dumps(st['state']['o'])[:160]}; "
                                f"on a fresh equal instance: {fr['out']} {json.dumps(fr['state']['o'])[:160]}"))
             break           # later steps start from different states
+    # ---- copies of a field's collection wrapper taken on its own
+    for r in impl.get("wrapper_copies", []):
+        site = f"{r['kind']}:{r['wrapper']}"
+        if r.get("raised"):
+            fails.append((f"wrapper-copy-raises:{site}:{r['raised']}", f"{r['kind']} of x.{r['f']} raised {r['unavailable']}: x={show(0)}"))
+        if r.get("owner_changed"):
+            fails.append((f"wrapper-copy-mutates-owner:{site}", f"taking the {r['kind']} of x.{r['f']} changed x itself: x={show(0)}"))
+        if r.get("mutation_reaches_owner"):
+            fails.append((f"wrapper-copy-bound-to-owner:{site}",
+                          f"in-place mutation ({r['mutation_reaches_owner']}) of the {r['kind']} of x.{r['f']} "
+                          f"(a {r.get('type')}, _instance is x: {r.get('bound_to_owner')}) changed x: x={show(0)}"))
     cr = runs.get("copy")
     if cr and copies.get("copy", {}).get("eq"):
         for j, (st, fr) in enumerate(zip(cr["copy_steps"], cr["fresh_steps"])):
